@@ -390,7 +390,7 @@ impl<'a> Gen<'a> {
             LoopOverflow => Step::new(cl, op).a(self.h(c), self.rng.below(4) as u32, 0),
             Reentrant => {
                 let l = self.hlist(c, 3);
-                Step::new(cl, op).a(self.rng.below(4) as u32, 0, 0).l(l).s(self.cstr())
+                Step::new(cl, op).a(self.rng.below(8) as u32, 0, 0).l(l).s(self.cstr())
             }
             Evict => Step::new(cl, op).a(self.rng.below(3) as u32, 2 + self.rng.below(5) as u32, 0),
             IterAbandon => Step::new(cl, op).a(self.h(c), 1 + self.rng.below(6) as u32, 0),
@@ -510,6 +510,28 @@ impl<'a> Gen<'a> {
                             self.push(Step::new(cl, Range).a(a, b, 0));
                             (self.last(c), a, b)
                         }
+                        4 if self.rng.chance(1, 2) => {
+                            // a small character class written as a union of characters created in
+                            // a random order (so id order and character order differ)
+                            let mut hs: Vec<u32> = Vec::new();
+                            let mut cellsv: Vec<u32> = Vec::new();
+                            for _ in 0..(2 + self.rng.below(2)) {
+                                let a = self.single_code();
+                                self.push(Step::new(cl, Char).a(a, 0, 0));
+                                hs.push(self.last(c));
+                                if !self.single_cells.is_empty() {
+                                    cellsv.push(self.single_cells[a as usize % self.single_cells.len()]);
+                                }
+                            }
+                            self.push(Step::new(cl, UnionList).l(hs));
+                            // the widened counterpart spans the first and the last created character
+                            // (which need not include the ones created in between)
+                            let (lo, hi) = match (cellsv.first(), cellsv.last()) {
+                                (Some(&x), Some(&y)) => (x.min(y), x.max(y)),
+                                _ => (0, self.ncells - 1),
+                            };
+                            (self.last(c), lo, hi)
+                        }
                         4 => {
                             self.push(Step::new(cl, All));
                             (self.last(c), u32::MAX, u32::MAX)
@@ -529,8 +551,9 @@ impl<'a> Gen<'a> {
                         0..=4 => q.push(ph),
                         5 | 6 => {
                             if lo != u32::MAX {
-                                let a = lo.saturating_sub(self.rng.below(2) as u32);
-                                let b = hi + self.rng.below(2) as u32;
+                                let exact = self.rng.chance(1, 2);
+                                let a = if exact { lo } else { lo.saturating_sub(self.rng.below(2) as u32) };
+                                let b = if exact { hi } else { hi + self.rng.below(2) as u32 };
                                 self.push(Step::new(cl, Range).a(a.min(b), b, 0));
                             } else {
                                 self.push(Step::new(cl, AllChar));
@@ -593,12 +616,27 @@ impl<'a> Gen<'a> {
                 self.push(Step::new(cl, EqCheck).a(first, second, 0));
             }
             8 => {
-                // nested loops
-                let h = self.h(c);
-                let (i, j) = (self.rng.below(3) as u32, self.rng.below(3) as u32);
+                // nested loops (the flattening test relates three of the four bounds)
+                let h = if self.rng.chance(1, 2) {
+                    let a = self.single_code();
+                    self.push(Step::new(cl, Char).a(a, 0, 0));
+                    self.last(c)
+                } else {
+                    self.h(c)
+                };
+                let wide = self.rng.chance(1, 2);
+                let (i, j) = if wide {
+                    (self.rng.below(9) as u32, self.rng.below(5) as u32)
+                } else {
+                    (self.rng.below(3) as u32, self.rng.below(3) as u32)
+                };
                 self.push(Step::new(cl, Loop).a(h, i, i + j));
                 let x = self.last(c);
-                let (k, l) = (self.rng.below(3) as u32, self.rng.below(3) as u32);
+                let (k, l) = if wide {
+                    (self.rng.below(5) as u32, self.rng.below(4) as u32)
+                } else {
+                    (self.rng.below(3) as u32, self.rng.below(3) as u32)
+                };
                 if self.rng.chance(1, 3) {
                     self.push(Step::new(cl, LoopInf).a(x, k, 0));
                 } else {
@@ -707,6 +745,21 @@ impl<'a> Gen<'a> {
                 };
                 self.push(Step::new(cl, EqCheck).a(x, y, 0));
                 self.push(Step::new(cl, IncludedIn).a(x, y, 0));
+                if self.rng.chance(1, 2) {
+                    // a literal with powers nested through a concatenation: ((w^k).c)^2
+                    let ch = self.single_code();
+                    self.push(Step::new(cl, Char).a(ch, 0, 0));
+                    let hc = self.last(c);
+                    self.push(Step::new(cl, Concat).a(x, hc, 0));
+                    let xc = self.last(c);
+                    self.push(Step::new(cl, Exp).a(xc, 2, 0));
+                    let lit = self.last(c);
+                    let r9 = self.rng.u32();
+                    self.push(Step::new(cl, GetString).a(lit, r9, 0));
+                    self.push(Step::new(cl, IsEmpty).a(lit, r9, 0));
+                    let qq = self.qstr();
+                    self.push(Step::new(cl, StrInRe).a(lit, r9, 0).s(qq));
+                }
                 // combined directly: intersection, union, difference of the two spellings
                 let op = [Inter, Inter, Union, Diff][self.rng.below(4) as usize];
                 self.push(Step::new(cl, op).a(x, y, 0));
@@ -904,14 +957,25 @@ impl<'a> Gen<'a> {
                 }
                 self.push(Step::new(cl, UnionList).l(words));
                 let u = self.last(c);
+                // class ids of a union whose members have shifted class numbering
+                for _ in 0..2 {
+                    let kk = self.rng.below(6) as u32;
+                    self.push(Step::new(cl, StartClass).a(u, kk, 0));
+                }
+                let plain = self.rng.chance(1, 3);
                 let op = if self.rng.chance(3, 4) { Star } else { Plus };
-                self.push(Step::new(cl, op).a(u, 0, 0));
+                if plain {
+                    // the union itself is the pattern (alternatives of different lengths)
+                    self.push(Step::new(cl, Union).a(u, u, 0));
+                } else {
+                    self.push(Step::new(cl, op).a(u, 0, 0));
+                }
                 let st = self.last(c);
                 let tail: Vec<u32> = (0..1 + self.rng.below(2)).map(|_| letters[self.rng.below(3) as usize]).collect();
                 self.push(Step::new(cl, Str).s(tail));
                 let th = self.last(c);
                 self.push(Step::new(cl, Concat).a(st, th, 0));
-                let pat = self.last(c);
+                let pat = if plain { st } else { self.last(c) };
                 let ql: Vec<u32> = letters
                     .iter()
                     .map(|&l| if self.single_cells.is_empty() { 0 } else { self.single_cells[l as usize % self.single_cells.len()] * 3 })
@@ -919,6 +983,13 @@ impl<'a> Gen<'a> {
                 for _ in 0..4 {
                     let len = 2 + self.rng.below(7);
                     let mut subj: Vec<u32> = (0..len).map(|_| ql[self.rng.below(3) as usize]).collect();
+                    if self.rng.chance(1, 3) {
+                        // periodic subject: g w g w x
+                        let seg: Vec<u32> = (0..2 + self.rng.below(2)).map(|_| ql[self.rng.below(3) as usize]).collect();
+                        subj = seg.clone();
+                        subj.extend_from_slice(&seg);
+                        subj.push(ql[self.rng.below(3) as usize]);
+                    }
                     if self.rng.chance(1, 3) {
                         subj.push(self.point_code());
                     }
@@ -1274,8 +1345,18 @@ impl<'a> Gen<'a> {
                 if self.rng.chance(1, 3) || (many && (self.force_many || self.rng.chance(1, 2))) {
                     // alternatives with different continuations
                     let mut alts: Vec<u32> = Vec::new();
+                    // distinct tails: every alternative leads to its own successor state
+                    // (only for moderately many alternatives: each one is a state of every automaton,
+                    // and every state is stepped on every test character)
+                    let distinct_tails = self.rng.chance(1, 3) && parts.len() <= 48;
                     for (i, &p) in parts.clone().iter().enumerate() {
-                        let t = if many { conts[i % 3] } else { self.h(c) };
+                        let t = if distinct_tails {
+                            parts[(i + 1) % parts.len()]
+                        } else if many {
+                            conts[i % 3]
+                        } else {
+                            self.h(c)
+                        };
                         self.push(Step::new(cl, Concat).a(p, t, 0));
                         alts.push(self.last(c));
                     }
@@ -1292,6 +1373,23 @@ impl<'a> Gen<'a> {
                         alts.push(self.last(c));
                     }
                     self.push(Step::new(cl, UnionList).l(alts.clone()));
+                    if self.rng.chance(1, 3) {
+                        // ... under a Sigma* prefix: the initial state sees every first letter plus
+                        // the rest of the alphabet
+                        let un = self.last(c);
+                        self.push(Step::new(cl, All));
+                        let fl = self.last(c);
+                        self.push(Step::new(cl, Concat).a(fl, un, 0));
+                        let su = self.last(c);
+                        let r8 = self.rng.u32();
+                        self.push(Step::new(cl, Compile).a(su, r8, 0));
+                        self.push(Step::new(cl, Closure).a(su, r8 % 16, 0));
+                        let q8 = self.qstr();
+                        self.push(Step::new(cl, StrInRe).a(su, r8, 0).s(q8));
+                        self.push(Step::new(cl, Compile).a(un, r8, 0));
+                        self.push(Step::new(cl, Closure).a(un, r8 % 16, 0));
+                        self.push(Step::new(cl, IsEmpty).a(un, 0, 0));
+                    }
                     if many {
                         // ask about it right away: membership, derivatives by late classes, compile
                         let u = self.last(c);
